@@ -458,6 +458,16 @@ def search(ctx):
         lead_a = {'D': (), 'FD': (F,), 'KFD': (K, F), 'KFD-KFDD': (K, F), 'LKFD': (2, K, F)}[layout]
         noise, cmax = U.hpd_stack(rng, lead_n, D)
         atf, akind = U.steering(rng, lead_a + (D,))
+        # dtype mix: a steering vector / PSD handed over with a REAL dtype (all-ones look direction, real-valued noise
+        # model) must behave like its complex copy
+        dmix = str(rng.choice(['complex', 'complex', 'complex', 'real-steering', 'real-noise', 'real-both']))
+        if dmix in ('real-steering', 'real-both'):
+            ar = np.ascontiguousarray(atf.real)
+            if np.all(np.linalg.norm(ar, axis=-1) > 1e-3):
+                atf = ar
+        if dmix in ('real-noise', 'real-both'):
+            noise = np.ascontiguousarray(noise.real)
+        ctx.count(f'search-mvdr-dtypes:{dmix}')
         ctx.count(f'search-mvdr-{layout}')
         ctx.count(f'search-D{D}')
         ctx.count('search-cond-1e%d' % int(np.floor(np.log10(cmax) + 1e-9)))
